@@ -1067,7 +1067,8 @@ class Exec(Engine):
         if name in self.reg.pure_ext or ("." + name.split(".")[-1]) in self.reg.pure_ext:
             recv = [p.recv] if p.recv is not None else []
             val = self.ext_value(name if p.recv is None else "." + name.split(".")[-1], recv + list(args), fr, kwargs)
-            st.events.append(Event("call", name, recv + list(args), kwargs, getattr(node, "lineno", None)))
+            st.events.append(Event("call", name if p.recv is None else "." + name.split(".")[-1], recv + list(args), kwargs,
+                                   getattr(node, "lineno", None), extra={"result": val}))
             if name in self.reg.no_raise_ext:
                 self.assume_note(f"external {name} assumed not to raise")
                 return [Outcome("normal", st, val=val)]
@@ -1332,6 +1333,29 @@ class Exec(Engine):
                 if isinstance(argnode, ast.Name) and argnode.id in saved:
                     saved[argnode.id] = nv
             outs.insert(0, Outcome("normal", st, val=res))
+            cc = getattr(self.reg, "symbols", {}).get("crash_check")
+            if cc is not None and fr.contract is not None and fr.contract.crash and any(m.startswith("ghost:FS") or m == "*" for m in c.modifies):
+                # the states a contracted callee can leave behind (normally or by raising) are states a crash can leave
+                for o_ in outs:
+                    env_keep = o_.st.env
+                    o_.st.env = saved
+                    try:
+                        cc(self, fr.sub(st=o_.st), f"call_{short}", node)
+                    finally:
+                        o_.st.env = env_keep
+                if c.crash:
+                    # ... and so is every state the callee's own crash clauses allow while it is running
+                    mid = old.fork()
+                    mid.env = dict(old.env)
+                    mf = Frame(self, mid, p.mod, fr.fn_key, contract=fr.contract, spec=True, cls=p.cls, old=old)
+                    for m in c.modifies:
+                        if m.startswith("ghost:FS") or m == "*":
+                            self.havoc_target(m if m != "*" else "ghost:FS", mf)
+                    mid.events = list(mid.events) + [Event("fs", "inside_" + short, [], {}, line)]
+                    for name, f in self.eval_clauses(c.crash, mf):
+                        mid.assume(f)
+                    mid.env = saved
+                    cc(self, fr.sub(st=mid), f"inside_{short}", node)
             return outs
         finally:
             st.env = saved
